@@ -244,7 +244,8 @@ func runWire(line, doc, m, hexTarget, body string) core.Outcome {
 		}
 	} else if parses {
 		// (a) a GET answers the value at the DECODED path
-		if m == "G" && r.status == 200 && !strings.Contains(decoded, "..") {
+		// (only for clean decoded paths: handleConfigID's path.Join drops "." and "//", the reference lookup does not)
+		if m == "G" && r.status == 200 && !strings.Contains(decoded, "..") && routesToID(decoded) {
 			oracleGet(step{m: "G", path: decoded}, r, prev, &o.Failures)
 		}
 		// (b) the spelling does not matter: the same request with the canonical encoding of the decoded
